@@ -458,6 +458,49 @@ def r7(ctx):
                 '`in` does not raise ValueError for non-scalar coordinates before calling contains', f.loc())
 
 
+GEOMETRY_METHODS = ('contains', 'bounding_box', 'to_mask', 'area', 'as_artist', 'to_sky', 'rotate', 'to_polygon')
+
+
+def r8(ctx):
+    """the geometry is a function of the region's *current* parameters: every attribute the geometry methods read is a
+    parameter (assignable, validated, compared, copied, serialised), a property/method, or a class constant — not a value
+    computed once in the constructor, which goes stale when a parameter is assigned."""
+    m = ctx.model
+    for ci in m.region_classes('pixel'):
+        params = set(m.params_of(ci)) | {'meta', 'visual'}
+        reads = {}
+        for name in GEOMETRY_METHODS:
+            f = m.method(ci, name)
+            if f is None:
+                continue
+            for n in ast.walk(f.node):
+                if isinstance(n, ast.Attribute) and isinstance(n.value, ast.Name) and n.value.id == 'self' \
+                        and isinstance(n.ctx, ast.Load):
+                    reads.setdefault(n.attr, set()).add(name)
+        stale = []
+        for a, where in sorted(reads.items()):
+            if a in params or a.startswith('__'):
+                continue
+            r = m.lookup(ci, a)
+            if r is None:
+                continue              # not defined by the class: only reachable under a hasattr guard
+            dc, k, what = r
+            if k == 'method':
+                continue              # property / method: recomputed on every use
+            if m.descriptor_kind(ci, a) is None:
+                continue              # class-level constant
+            stale.append((a, sorted(where)))
+        if stale:
+            a, where = stale[0]
+            ctx.bad(ci.name, f'stale-derived:{a}',
+                    f'{", ".join(where)} read self.{a}, which is stored once by the constructor and is not one of the '
+                    f'parameters {sorted(params - {"meta", "visual"})}: after `region.{sorted(params - {"meta", "visual"})[0]} = ...` '
+                    f'membership, box, mask and artist still describe the old shape (while ==, copy() and the writers use the new '
+                    'parameters)', ci.path)
+        else:
+            ctx.ok(ci.name, 'geometry methods read parameters, properties and class constants only')
+
+
 RULES = [
     RuleDef('R1', 'membership predicate = geometric definition (circle, ellipse, rectangle)', r1, 3),
     RuleDef('R2', 'polygon kernel: cyclic neighbour, even-odd crossing, parity; argument order', r2, 2),
@@ -466,4 +509,5 @@ RULES = [
     RuleDef('R5', 'annulus = outer and not inner, complemented once', r5, 3),
     RuleDef('R6', 'result shape provenance (rank promotion undone)', r6, 7),
     RuleDef('R7', 'scalar-only `in` operator', r7, 1),
+    RuleDef('R8', 'geometry reads current parameters only (no constructor-time cache)', r8, 12),
 ]
